@@ -205,6 +205,7 @@ ATOM_VARS = {
     "e": ("E = X", [{}, {"e": "Y"}]),
     "l": ("[Int]", [{}, {"l": 3}, {"l": [1, None]}]),
     "w": ("Int!", [{"w": 3}]),
+    "d": ("Int = 5", [{}, {"d": 1}, {"d": None}]),
 }
 ATOMS = {
     "S1": {
@@ -227,7 +228,9 @@ ATOMS = {
         "atoms": ["echo", "echo(i: 1)", "echo(i: $v)", "echo(x: $v)", "echo(x: null)", "x: echo(e: Y, inp: {q: [1]})", "x: echo(inp: $i)",
                   "echo(inp: {n: $i, e: $e})", "echo(l: $l)", "echo(l: [1, $v])", "echo(f: 2, id: 7, b: $s)", "dfl", "dfl(ll: [{n: $i}])",
                   "dfl(s: null, nd: 1)", "dfl(one: {i: $w})", "dfl(one: {s: \"a\"})", "req(r: 1, rl: 2)", "req(r: $w, rl: [1])",
-                  "plain", "...F", "...F @skip(if: $t)", "sub { echo(e: $e) }", "sub { dfl(ll: [{p: $v}]) }", "y: plain @include(if: $s)"],
+                  "plain", "...F", "...F @skip(if: $t)", "sub { echo(e: $e) }", "sub { dfl(ll: [{p: $v}]) }", "y: plain @include(if: $s)",
+                  "anyarg(j: {a: $d, b: [5]})", "anyarg(j: [$d, $v, 1])", "a2: anyarg(j: {a: $v}, k: $d)", "anyout anys",
+                  "many(filters: {min: $w, tag: null})", "sum(values: [$w, 3])"],
     },
     "S3": {
         "wrap": "mutation Q%s { %s }",
